@@ -40,7 +40,18 @@ pub const TAG_OTHER: u64 = 9;
 /// ctap2::Request::deserialize + observation, guarded
 pub fn decode_request(msg: &[u8]) -> Dec {
     breadcrumb(TAG_CTAP2_DECODE, msg);
-    match guard(|| ctap2::Request::deserialize(msg).map(|r| bind::observe_request(&r))) {
+    // the observed view is taken from the value itself; a clone must show the same view and
+    // compare equal (authenticators keep clones of requests across user-presence waits)
+    match guard(|| {
+        ctap2::Request::deserialize(msg).map(|r| {
+            let v = bind::observe_request(&r);
+            let c = r.clone();
+            if c != r || bind::observe_request(&c) != v {
+                panic!("clone of the decoded request differs from it");
+            }
+            v
+        })
+    }) {
         Ok(Ok(v)) => Dec::Ok(v),
         Ok(Err(e)) => Dec::Err(e as u8),
         Err(p) => Dec::Panic(p),
